@@ -97,6 +97,7 @@ SPELL = {
         ("attr", ("{{ {'f': @N@}.f() }}", [])),
         ("filter_input", ("{{ @N@()|upper }}", [])),
         ("in_list", ("{{ [@N@()]|join }}", [])),
+        ("map_input", ("{{ [@N@()]|map('upper')|select('string')|list|join }}", [])),
         ("concat", ("{{ @N@() ~ '' }}", [])),
         ("condition", ("{% if @N@() %}{% endif %}", [])),
         ("set", ("{% set v = @N@() %}", [])),
